@@ -131,12 +131,15 @@ func (r *runner) truePath(tok string) ([]int, bool) {
 
 func atoi(s string) int { n, _ := strconv.Atoi(s); return n }
 
-// nextSite: the first call site of activation c (deps only, or task: calls among the commands in
-// order followed by deferred calls in reverse order) that targets (t, v) and owns no line yet.
-func (r *runner) nextSite(c []int, t, v int, deps bool) ([]int, bool) {
+// nextSites: the call sites of activation c that can own the next line of target (t, v): for deps the
+// first dep that targets it and owns no line yet; otherwise the first such task: call among the
+// commands AND the last such deferred call (deferred calls run in reverse order) - whether the
+// command loop got as far as that call or was cut short (a callee that fails its guards prints
+// nothing) cannot be seen, so both are candidates.
+func (r *runner) nextSites(c []int, t, v int, deps bool) [][]int {
 	tc, vc, ok := r.p.Resolve(c)
 	if !ok {
-		return nil, false
+		return nil
 	}
 	tk := r.p.Tasks[tc]
 	try := func(m int, cl Call) ([]int, bool) {
@@ -149,29 +152,32 @@ func (r *runner) nextSite(c []int, t, v int, deps bool) ([]int, bool) {
 		}
 		return site, true
 	}
+	var out [][]int
 	if deps {
 		for j, d := range tk.Deps {
 			if s, ok := try(j, d); ok {
-				return s, true
+				return [][]int{s}
 			}
 		}
-		return nil, false
+		return nil
 	}
 	for k, cm := range tk.Cmds {
 		if cm.Kind == "call" {
 			if s, ok := try(len(tk.Deps)+k, *cm.Call); ok {
-				return s, true
+				out = append(out, s)
+				break
 			}
 		}
 	}
 	for k := len(tk.Cmds) - 1; k >= 0; k-- {
 		if cm := tk.Cmds[k]; cm.Kind == "dcall" {
 			if s, ok := try(len(tk.Deps)+k, *cm.Call); ok {
-				return s, true
+				out = append(out, s)
+				break
 			}
 		}
 	}
-	return nil, false
+	return out
 }
 
 func (r *runner) nextRoot(t, v int) ([]int, bool) {
@@ -194,9 +200,7 @@ func (r *runner) infer(ev sched.Event, t, v int) ([]int, bool) {
 	if last, ok := r.lastOnG[ev.G]; ok {
 		c := last
 		for {
-			if s, ok := r.nextSite(c, t, v, false); ok {
-				cands = append(cands, s)
-			}
+			cands = append(cands, r.nextSites(c, t, v, false)...)
 			if len(c) <= 1 {
 				// roots started one after the other share the goroutine of Run
 				if s, ok := r.nextRoot(t, v); ok && !r.p.Cfg.Parallel {
@@ -211,9 +215,7 @@ func (r *runner) infer(ev sched.Event, t, v int) ([]int, bool) {
 			c = par
 		}
 	} else if parent, ok := r.lastOnG[ev.PG]; ok {
-		if s, ok := r.nextSite(parent, t, v, true); ok {
-			cands = append(cands, s)
-		}
+		cands = append(cands, r.nextSites(parent, t, v, true)...)
 	} else if s, ok := r.nextRoot(t, v); ok {
 		cands = append(cands, s)
 	}
